@@ -88,19 +88,13 @@ def direction_table(repo: Repo, R):
             loop = n
     if loop is None:
         raise AnalysisError(f"idiom-unknown: loop over the bundle's signals not found in {fi.site}")
-    # outputs: what is finally stored into <leaf>.vis / <leaf>.direction
-    outs = {}
-    leaf = None
-    for st in loop.body:
-        if isinstance(st, ast.Assign) and isinstance(st.targets[0], ast.Attribute) and st.targets[0].attr in ("vis", "direction") and isinstance(st.value, ast.Name):
-            outs[st.targets[0].attr] = st.value.id
-            leaf = ast.unparse(st.targets[0].value)
-    if set(outs) != {"vis", "direction"}:
-        raise AnalysisError(f"idiom-unknown: final `leaf.vis = ..`/`leaf.direction = ..` stores not found in {fi.site}")
-    blocks = [st for st in loop.body if isinstance(st, ast.If)]
-    decision = [st for st in blocks if any(isinstance(x, ast.Assign) and isinstance(x.targets[0], ast.Name) and x.targets[0].id in outs.values() for x in ast.walk(st))]
-    if len(decision) != 1:
-        raise AnalysisError(f"idiom-unknown: expected one decision block assigning {sorted(outs.values())} in {fi.site}")
+    # outputs: what is stored into <leaf>.vis / <leaf>.direction, wherever in the loop body that happens
+    leaves = {ast.unparse(x.targets[0].value) for x in ast.walk(loop) if isinstance(x, ast.Assign) and len(x.targets) == 1 and isinstance(x.targets[0], ast.Attribute) and x.targets[0].attr in ("vis", "direction") and isinstance(x.targets[0].value, ast.Name)}
+    if len(leaves) != 1:
+        raise AnalysisError(f"idiom-unknown: stores to `<leaf>.vis` / `<leaf>.direction` not found in {fi.site} (receivers {sorted(leaves)})")
+    leaf = leaves.pop()
+    outs = {"vis": f"{leaf}.vis", "direction": f"{leaf}.direction"}
+    decision = list(loop.body)
 
     def m_name(nm):
         return lambda t: isinstance(t, ast.Name) and t.id == nm
@@ -136,7 +130,7 @@ def direction_table(repo: Repo, R):
         return s
 
     try:
-        tab = fde.decision_table(decision, atoms, [outs["vis"], outs["direction"]], norm)
+        tab = fde.decision_table(decision, atoms, [outs["vis"], outs["direction"]], norm, tolerant=True)
     except fde.Unknown as e:
         raise AnalysisError(f"idiom-unknown: direction/visibility decision in {fi.site}: {e}")
     bad = []
@@ -161,7 +155,7 @@ def direction_table(repo: Repo, R):
         got = (res[outs["vis"]], res[outs["direction"]])
         if got != want:
             bad.append((v, got, want))
-    R.check(not bad, rule, key_of(fi), fi.at(decision[0]),
+    R.check(not bad, rule, key_of(fi), fi.at(loop),
             f"decision table over 6 atoms, {n} specified valuations: "
             + ("all agree with the statement (not a port: internal/undirected; declared port: flipped iff parity odd; role==src: output; role==dest: input; else undirected)"
                if not bad else f"{len(bad)} disagree, e.g. {bad[0][0]} gives {bad[0][1]}, expected {bad[0][2]}"),
@@ -199,16 +193,38 @@ def flip_parity(repo: Repo, R):
     fv = rkw.get(flip)
     if fv is None:
         raise AnalysisError(f"idiom-unknown: recursive call passes no `{flip}`")
-    defs = {}
-    for st in (loop.body if loop is not None else []):
-        if isinstance(st, ast.Assign) and isinstance(st.targets[0], ast.Name):
-            defs[st.targets[0].id] = st.value
-    expr = au.expand(fv, defs, depth=2)
     tt = {}
+    expr = fv
+    branchy = isinstance(fv, ast.Name) and loop is not None and sum(1 for x in ast.walk(loop) if isinstance(x, ast.Assign) and len(x.targets) == 1 and isinstance(x.targets[0], ast.Name) and x.targets[0].id == fv.id) > 1
     try:
-        for a in (False, True):
-            for b in (False, True):
-                tt[(a, b)] = fde._ev(expr, {flip: a, "__sub_flipped": b} if False else {flip: a, sub: _SubFlipped(b)})
+        if branchy:
+            # the value is chosen by an if/else over the flags (the canonical form of a conditional expression)
+            def m_flip(t):
+                return isinstance(t, ast.Name) and t.id == flip
+
+            def m_sub(t):
+                return ast.unparse(t) == f"{sub}.flipped"
+
+            tab = fde.decision_table(list(loop.body), [("flip", m_flip), ("sub", m_sub)], [fv.id], lambda v: ast.unparse(v), tolerant=True)
+            for (a, b), res in tab.items():
+                txt = res[fv.id]
+                if txt == flip:
+                    tt[(a, b)] = a
+                elif txt in (f"not {flip}",):
+                    tt[(a, b)] = not a
+                elif txt in ("True", "False"):
+                    tt[(a, b)] = txt == "True"
+                else:
+                    raise fde.Unknown(f"value `{txt}`")
+        else:
+            defs = {}
+            for st in (ast.walk(loop) if loop is not None else []):
+                if isinstance(st, ast.Assign) and len(st.targets) == 1 and isinstance(st.targets[0], ast.Name):
+                    defs[st.targets[0].id] = st.value
+            expr = au.expand(fv, defs, depth=2)
+            for a in (False, True):
+                for b in (False, True):
+                    tt[(a, b)] = fde._ev(expr, {flip: a, sub: _SubFlipped(b)})
     except fde.Unknown as e:
         raise AnalysisError(f"idiom-unknown: flip step `{ast.unparse(expr)}`: {e}")
     want = {(a, b): (a != b) for a in (False, True) for b in (False, True)}
